@@ -1,11 +1,14 @@
 #!/bin/sh
 # usage: run_against_seeded.sh <seeded id> <check id> [extra args]
-# Applies the seeded patch to /repo, runs the quick check, undoes the patch straight afterwards.
+# Runs the quick check against a scratch copy of /repo/src with the seeded patch applied
+# (VERIF_REPO_SRC); /repo itself is not touched, so background runs against /repo stay clean.
+# (Equivalent to: git -C /repo apply <patch>; ./check ...; git -C /repo checkout -- .)
 ID="$1"; CHK="$2"; shift 2
-cd /repo || exit 2
-if [ -n "$(git status --porcelain -- src)" ]; then echo "/repo/src is dirty; refusing"; exit 2; fi
-git apply /verif/seeded/$ID/patch.diff || { echo "patch does not apply"; exit 2; }
-cd /verif; ./check $CHK --no-evidence "$@" > /tmp/seeded-$ID-$CHK.out 2>&1; rc=$?
-git -C /repo checkout -- . 
+D=$(mktemp -d /dev/shm/vsim-mut-XXXXXX) || exit 2
+cp -r /repo/src "$D/src"; mkdir -p "$D/tests"; ln -s /repo/tests/data "$D/tests/data"
+patch -p1 -s -d "$D" -i /verif/seeded/$ID/patch.diff || { echo "patch does not apply"; rm -rf "$D"; exit 2; }
+cd /verif; VERIF_REPO="$D" VERIF_REPO_SRC="$D/src" ./check $CHK --no-evidence "$@" > /tmp/seeded-$ID-$CHK.out 2>&1; rc=$?
+rm -rf "$D"
 echo "$ID vs $CHK: exit=$rc $(grep -c '^VIOLATION' /tmp/seeded-$ID-$CHK.out) VIOLATION line(s); $(grep -m1 'violation: oracle' /tmp/seeded-$ID-$CHK.out | cut -c1-140)"
+rm -f /verif/replays/*.json
 exit $rc
